@@ -132,4 +132,5 @@ Definition run (name : string) (a : sx) : sx :=
   else if is "c05.dec" then H05.run_dec a
   else if is "c08.mapint" then H08.run_mapint a
   else if is "c19.genpayload" then H19.run_genpayload a
+  else if is "c13.add" then H13.run_add a
   else sx_err "unknown case kind".
